@@ -1,6 +1,7 @@
 mod driver;
 mod engine;
 mod extract;
+mod gen;
 mod imp;
 mod props;
 mod util;
